@@ -946,6 +946,10 @@ NEIGHBORS = {
     # every field of E is the textual EXTENSION of the matching field of A (127.0.0.2 -> 127.0.0.20, 65001 -> 650010 ...):
     # a selector term must match a whole field, not a prefix of its text
     'E': ('127.0.0.20', '127.0.0.10', 650000, 650010, '1.2.3.40', True),
+    # IPv6 sessions: the address of G is the address of F followed by one more group (`:` is no word character: a term must end
+    # where the field ends, not at a word boundary)
+    'F': ('2001:db8::1', '2001:db8::ff', 65000, 65001, '1.2.3.4', True),
+    'G': ('2001:db8::1:2', '2001:db8::ff:2', 65000, 65001, '1.2.3.4', True),
 }
 KEYS = ('local-ip', 'local-as', 'peer-as', 'router-id')
 
@@ -1273,8 +1277,8 @@ def h_group_order(ctx, version, n):
 # ---- selectors
 
 POOLS = {
-    'ip': ['127.0.0.2', '127.0.0.3', '127.0.0.4', '127.0.0.5', '9.9.9.9', '*'],
-    'local-ip': [None, '127.0.0.1', '127.0.0.9', '7.7.7.7'],
+    'ip': ['127.0.0.2', '127.0.0.3', '127.0.0.4', '127.0.0.5', '9.9.9.9', '*', '2001:db8::1', '2001:db8::1:2'],
+    'local-ip': [None, '127.0.0.1', '127.0.0.9', '7.7.7.7', '2001:db8::ff'],
     'local-as': [None, 65000, 65010, 7],
     'peer-as': [None, 65001, 65002, 7],
     'router-id': [None, '1.2.3.4', '9.9.9.9', '7.7.7.7'],
